@@ -218,7 +218,20 @@ def discharge_assert(body, ex, facts, bb, t):
     """Return a reason string when the assert provably holds, else None."""
     kind = t["kind"]
     ops = t["ops"]
+    if kind == "OverflowNeg" and ops:
+        x = show(ex.operand(ops[0]))
+        if "State::store_string(" in x and "StringAlreadyStored" in x and x.rstrip(")").endswith(".id.0"):
+            return "negation of a string id handed out by State::store_string: ids start at 1 and grow by 1 (T11), i32::MIN is not reachable"
     exprs = [ex.operand(o) for o in ops]
+    if kind in ("DivisionByZero", "RemainderByZero"):
+        # `x / 2`: the asserted condition is `divisor == 0` being false; a non-zero constant divisor never trips it
+        c = mir.strip_refs(ex.operand(t["cond"]))
+        if isinstance(c, tuple) and c[0] == "bin" and c[1] == "Eq":
+            a_, b_ = guards.rng(c[2]), guards.rng(c[3])
+            if a_ and b_ and a_[0] == a_[1] and b_[0] == b_[1] and a_[0] != b_[0]:
+                return "constant non-zero divisor"
+            if (a_ and a_[0] > 0 and guards.rng(c[3]) == (0, 0)) or (b_ and b_[0] > 0 and guards.rng(c[2]) == (0, 0)):
+                return "divisor is at least 1"
     atoms = []
     for cond, val, d in facts.get(bb, ()):
         for a in guards.bool_atoms(cond, val):
@@ -291,7 +304,10 @@ def _site_discharge(body, ex, facts, bb, t, info):
     for cond, val, d in facts.get(bb, ()):
         atoms.extend(guards.bool_atoms(cond, val))
     if key in ("Vec<T>::with_capacity", "BytesMut::with_capacity", "Vec<T, A>::with_capacity_in"):
-        return bounded_size(args[0])
+        why = bounded_size(args[0])
+        if why is None and _held_by_caller(args[0]):
+            why = "proportional to data the caller already holds in memory (no value read from the input)"
+        return why
     if key == "char::encode_utf16":
         for x in mir.walk_expr(args[1]):
             if x[0] == "cast" and x[1] == "Unsize" and ("[u16; 2]" in x[2] or "[u16; 2_usize]" in x[2]):
@@ -317,6 +333,28 @@ def _site_discharge(body, ex, facts, bb, t, info):
                                 return "constant index under dominating len guard"
         return None
     return None
+
+
+def _held_by_caller(e):
+    """the size is computed (by +, -, /, >>, min and constants, never by multiplication) from the length of a value that is
+    an argument of the function - memory the caller already holds - and from nothing read from the input"""
+    e = mir.strip_refs(e)
+    if not isinstance(e, tuple):
+        return False
+    if e[0] == "const":
+        return e[2] is not None
+    if e[0] == "len" or (e[0] == "call" and (e[1] in guards.PURE_LEN or e[1].endswith("::len")) and e[3]):
+        inner = mir.strip_refs(e[1] if e[0] == "len" else e[3][0])
+        while isinstance(inner, tuple) and inner[0] in ("field", "deref", "ref", "cast"):
+            inner = mir.strip_refs(inner[1] if inner[0] != "cast" else inner[4])
+        return isinstance(inner, tuple) and inner[0] == "arg"
+    if e[0] == "bin" and e[1] in ("Add", "Sub", "Div", "Shr", "AddWithOverflow", "SubWithOverflow"):
+        return _held_by_caller(e[2]) and _held_by_caller(e[3])
+    if e[0] == "call" and e[1] in ("Ord::min", "min", "usize::saturating_sub", "usize::saturating_add") and len(e[3]) == 2:
+        return _held_by_caller(e[3][0]) and _held_by_caller(e[3][1])
+    if e[0] == "cast" and e[1] == "IntToInt":
+        return _held_by_caller(e[4])
+    return False
 
 
 def bounded_size(e):
@@ -536,7 +574,9 @@ def sign_loss_casts(an, rep, crate=None, roots=None, floor=True):
                     continue
                 # zig-zag decoding and bit reinterpretations do not produce sizes: accepted only when the result
                 # is never used as a size: conservatively accept casts inside the varint primitive itself
-                if b.key in ("BinaryInput::read_var_i32",):
+                from ..layers import varint_unit, VARINT_KEYS
+                if b.key == "BinaryInput::read_var_i32" or (b.defn in varint_unit(core) and b.key not in VARINT_KEYS):
+                    # zig-zag decoding: a bit reinterpretation inside the varint unit, decided bit-exactly by pack B
                     R.ok()
                     continue
                 # the result of the cast must not reach a size position (read_bytes/skip/with_capacity/index/loop bound)
